@@ -1970,42 +1970,58 @@ def evaluate(ctx, h, index, nops, answer):
 
 
 def run(ctx):
+    from concurrent.futures import ThreadPoolExecutor
     _load_ops()
     warnings.simplefilter("ignore")
     sys.setrecursionlimit(20000)
     quick = ctx.tier == "quick"
     target = 2000 if quick else 14000
-    gen_budget = 40 if quick else 500
+    gen_budget = 50 if quick else 600
+    batch = 400 if quick else 1000
     t0 = time.time()
     hs = []
     lines = []
     index = 0
     seen_nt = set()
+    pending = None
+    pool = ThreadPoolExecutor(1)
+
+    def ask(ls):
+        try:
+            return ctx.lean_run_sharded("C04", ls)
+        except common.LeanError as e:
+            return e
+
+    def submit():
+        nonlocal hs, lines, pending
+        if pending is not None:
+            _flush(ctx, pending[0], pending[1], pending[2].result(), seen_nt)
+            pending = None
+        if hs:
+            pending = (hs, lines, pool.submit(ask, lines))
+            hs, lines = [], []
+
     while index < target and time.time() - t0 < gen_budget:
         nops = pick_nops(ctx.rng, ctx.tier)
         h = make_history(ctx.seed, index, nops, ctx.tier)
         lines.append(h.request())
         hs.append((index, nops, h))
         index += 1
-        # evaluate in batches to bound memory
-        if len(hs) >= (500 if quick else 1000):
-            _flush(ctx, hs, lines, seen_nt)
-            hs, lines = [], []
-    _flush(ctx, hs, lines, seen_nt)
+        if len(hs) >= batch:        # the model answers one batch while the next is generated
+            submit()
+    submit()
+    submit()
+    pool.shutdown()
     ctx.extra["node_types_covered"] = len(seen_nt)
     ctx.extra["node_types_missing"] = sorted(set(range(66)) - seen_nt)
     ctx.extra["histories"] = index
     ctx.extra["generation_s"] = round(time.time() - t0, 1)
 
 
-def _flush(ctx, hs, lines, seen_nt):
-    if not hs:
-        return
-    answers = None
-    try:
-        answers = ctx.lean_run_sharded("C04", lines)
-    except common.LeanError as e:
-        ctx.report_l("driver C04 does not run", str(e))
+def _flush(ctx, hs, lines, answers, seen_nt):
+    if isinstance(answers, Exception):
+        ctx.report_l("driver C04 does not run", str(answers))
+        answers = None
     for j, (index, nops, h) in enumerate(hs):
         evaluate(ctx, h, index, nops, answers[j] if answers is not None else None)
         hits = 0
